@@ -76,6 +76,33 @@ func vfSTok(r *vfRand, kind string, n int) string {
 	}
 }
 
+// vfSTokStored searches for a token whose STORED form (base64 of gzip) is exactly `target` characters long: values that fill
+// their last chunk cookie to the last byte (and their neighbours one encoding quantum shorter and longer)
+func vfSTokStored(r *vfRand, target int) string {
+	n := target - 40
+	best := ""
+	for try := 0; try < 400; try++ {
+		if n < 8 {
+			n = 8
+		}
+		tok := vfSTok(r, "jwt", n)
+		got := len(vfCompress(tok))
+		if got == target {
+			return tok
+		}
+		best = tok
+		d := target - got
+		if d > 3 || d < -3 {
+			n += d * 3 / 4
+		} else if d > 0 {
+			n++
+		} else {
+			n--
+		}
+	}
+	return best
+}
+
 var vfSSizes = []int{1, 10, 600, 1400, 1480, 1500, 1520, 2900, 3000, 3100, 4500, 6000, 9000, 20000, 33000}
 
 func vfGenSCase(r *vfRand, id int) *vfSCase {
@@ -92,6 +119,8 @@ func vfGenSCase(r *vfRand, id int) *vfSCase {
 				rq.Ops = append(rq.Ops, vfSOp{O: "auth", B: r.chance(3, 4)})
 			case x < 8:
 				rq.Ops = append(rq.Ops, vfSOp{O: "main", F: 3 + r.intn(5), V: vals[r.intn(len(vals))]})
+			case x < 12 && r.chance(1, 4): // a stored form at (or one encoding quantum off) a chunk boundary
+				rq.Ops = append(rq.Ops, vfSOp{O: vfPick(r, "acc", "ref"), V: vfSTokStored(r, (1+r.intn(4))*2000+[]int{-4, 0, 0, 4}[r.intn(4)])})
 			case x < 12:
 				rq.Ops = append(rq.Ops, vfSOp{O: "acc", V: vfSTok(r, vfPick(r, "jwt", "jwt", "rep", "b64", "gz", ""), vfSSizes[r.intn(len(vfSSizes))])})
 			case x < 16:
@@ -140,6 +169,13 @@ func vfSCorpus(r *vfRand) []*vfSCase {
 			{Path: "/"}}},
 		{Kind: "corpus", Reqs: []vfSReq{
 			{Path: "/", Ops: []vfSOp{{O: "ref", V: big}, {O: "save"}, {O: "ref", V: small}, {O: "save"}}},
+			{Path: "/"}}},
+		// stored forms that fill their last chunk cookie exactly (2000, 4000, 6000 characters) and their neighbours
+		{Kind: "corpus", Reqs: []vfSReq{
+			{Path: "/", Ops: []vfSOp{{O: "acc", V: vfSTokStored(r, 4000)}, {O: "ref", V: vfSTokStored(r, 6000)}, {O: "save"}}},
+			{Path: "/", Ops: []vfSOp{{O: "acc", V: vfSTokStored(r, 2000)}, {O: "ref", V: vfSTokStored(r, 3996)}, {O: "save"}}},
+			{Path: "/", Ops: []vfSOp{{O: "acc", V: vfSTokStored(r, 4004)}, {O: "ref", V: vfSTokStored(r, 2004)}, {O: "save"}}},
+			{Path: "/", Ops: []vfSOp{{O: "acc", V: vfSTokStored(r, 8000)}, {O: "ref", V: vfSTokStored(r, 1996)}, {O: "save"}}},
 			{Path: "/"}}},
 		{Kind: "corpus", Reqs: []vfSReq{
 			{Path: "/", Ops: []vfSOp{{O: "acc", V: big}, {O: "ref", V: big}, {O: "save"}, {O: "clear"}}},
